@@ -163,3 +163,17 @@ def _(c):
           props=["C04", "C12", "C19"])
     c.ens("new_rows_unflagged", "forall(rows(self.X), lambda i: implies(i >= rows(old(self.X)), not self.X_flag[i] and self.n_evals[i][0] == 0))", props=["C12"])
     c.ens("count_kept", "count_true(self.X_flag) == old(count_true(self.X_flag))")
+
+
+@contract(FL + ".__init__", serves=["C12"])
+def _(c):
+    """The constructor establishes the log's well-formedness invariant (which every other method under contract assumes and keeps):
+    empty log, equal array lengths, no row flagged, nothing counted."""
+    log_types(c)
+    c.ints("D", "cache_size", "uncertainty_handling_level")
+    c.bools("noise_flag")
+    c.req("sizes", "D >= 1 and cache_size >= 1", props=["C12"])
+    c.mod_prefix("self")
+    c.ens("log_well_formed_and_empty", WF + " and self.Xn == -1 and self.func_count == 0 and self.D == D and rows(self.X) == cache_size", top=True, props=["C12"])
+    c.ens("noise_mode_recorded", "truthy(self.noise_flag) == truthy(noise_flag) and truthy(self.he_noise_flag) == (uncertainty_handling_level == 2) and "
+          "truthy(self.transform_variables) == (not isnone(variable_transformer))", props=["C12"])
